@@ -118,6 +118,7 @@ def run_property(prop, tier="quick", replay=None):
     out_lines = []
     violations = []     # (replay payload, suffix)
     known = []
+    known_keys = collections.Counter()
     thorough = tier == "thorough"
 
     # ---- A/B: Gen tables, Lean build, axiom audit
@@ -188,6 +189,7 @@ def run_property(prop, tier="quick", replay=None):
         for h in hits:
             kf = C.finding_matches(prop, h["key"])
             if kf:
+                known_keys[h["key"]] += 1
                 if ("K", kf.get("key")) not in seen:
                     seen.add(("K", kf.get("key")))
                     known.append(f"KNOWN-FINDING: property={prop} {kf.get('what', h['what'])} [e.g. {h['key']}]")
@@ -256,6 +258,7 @@ def run_property(prop, tier="quick", replay=None):
         "traces_validated_against_impl": compared,
         "model_impl_disagreements": len(all_dis),
         "monitor_hits": len(all_hits),
+        "known_finding_keys": dict(sorted(known_keys.items())),
         "failing_input_search_cases": searched,
         "input_distribution": dict(sorted(dist.items())),
         "samples": samples[:8] if samples else [{"note": "no dynamic cases for this property"}],
